@@ -1366,6 +1366,7 @@ def monitor(lines, out, props):
     pend = None      # (op index, parsed op, output) of the last mutating op, judged at the next DUMP
     _down = set()
     byname = {}
+    rereg = []       # (id, dumped state before, principal) of re-registrations, judged at the next DUMP
     resynced = False
     expanded = []
     for k, (d, o) in enumerate(al, 1):
@@ -1406,6 +1407,8 @@ def monitor(lines, out, props):
                   known = [j for j, pth in paths.items() if pth == d["path"]]
                   if known and known[0] != i:
                       fails.append("C16-identity: path %s has ids %d and %d" % (d["path"], known[0], i))
+                  if known and known[0] == i and i in last[0]:
+                      rereg.append((i, last[0][i], d["p"]))
                   if not known:
                       if next_id is not None and i != next_id:
                           fails.append("C16-ids: new signal got id %d, expected %d (refusals must not consume ids)" % (i, next_id))
@@ -1566,6 +1569,12 @@ def monitor(lines, out, props):
                   _down.add(d["h"])
           elif name == "DUMP":
               ents, provs = dec_dump(o)
+              for (i, snap, who) in rereg:
+                  if i in ents and ents[i] != snap:
+                      for tag in ("C16", "C04"):
+                          fails.append("%s-rereg: registering the existing path %s again (p%d) changed its stored state "
+                                       "from %s to %s" % (tag, paths.get(i), who, snap, ents[i]))
+              rereg = []
               # C01: stored state is exactly the fold of acknowledgements
               for i, (v, ts, tgt) in ents.items():
                   exp = ack.get(i)
